@@ -130,6 +130,68 @@ def build_harness(release=False):
         return time.time() - t
 
 
+UPSTREAM_OLD = """        } else {
+            // ...and if we are inserting a 0 we don't even need to allocate a new [u8]
+            (Arc::clone(inner), bit_offset - 1)
+        }"""
+UPSTREAM_NEW = """        } else {
+            // [verif] the buffer may be shared with an older encoding: the bit in front must be cleared
+            let new_bit_offset = bit_offset - 1;
+            let mut bx: Box<[u8]> = inner.as_ref().into();
+            bx[new_bit_offset / 8] &= !(1 << (7 - new_bit_offset % 8));
+            (bx.into(), new_bit_offset)
+        }"""
+SVH_FIXED = os.path.join(BUILD, "cargo-fixed", "debug", "svh")
+
+
+def build_harness_fixed():
+    """A second build of the same harness against /repo, with ONE change in the dependency simplicity-lang 0.4.0
+    (value.rs right_shift_1 clears the bit it claims to insert).  Used only to attribute a failure to that upstream
+    defect (known finding D10): a failure that persists with the corrected dependency is simfony's."""
+    import glob
+    import shutil
+    with Lock("cargo-fixed"):
+        src = sorted(glob.glob(os.path.expanduser("~/.cargo/registry/src/*/simplicity-lang-0.4.0")))
+        if not src:
+            raise BuildError("simplicity-lang 0.4.0 sources not found in the cargo registry")
+        dep = os.path.join(BUILD, "simplicity-lang-fixed")
+        if not os.path.exists(os.path.join(dep, "patched.stamp")):
+            shutil.rmtree(dep, ignore_errors=True)
+            shutil.copytree(src[0], dep)
+            vp = os.path.join(dep, "src", "value.rs")
+            v = open(vp).read()
+            if UPSTREAM_OLD not in v:
+                raise BuildError("simplicity-lang value.rs does not contain the expected right_shift_1 branch")
+            open(vp, "w").write(v.replace(UPSTREAM_OLD, UPSTREAM_NEW))
+            for f in ("Cargo.lock", "Cargo-recent.lock", ".cargo-ok", ".cargo_vcs_info.json"):
+                try:
+                    os.remove(os.path.join(dep, f))
+                except OSError:
+                    pass
+            open(os.path.join(dep, "patched.stamp"), "w").write("ok")
+        hd = os.path.join(BUILD, "harness-fixed")
+        os.makedirs(os.path.join(hd, ".cargo"), exist_ok=True)
+        toml = open(os.path.join(HARNESS, "Cargo.toml")).read()
+        toml += '\n[patch.crates-io]\nsimplicity-lang = { path = "%s" }\n' % dep
+        write_if_changed(os.path.join(hd, "Cargo.toml"), toml)
+        write_if_changed(os.path.join(hd, ".cargo", "config.toml"), '[net]\noffline = true\n[build]\ntarget-dir = "%s"\n' % os.path.join(BUILD, "cargo-fixed"))
+        link = os.path.join(hd, "src")
+        if not os.path.islink(link):
+            os.symlink(os.path.join(HARNESS, "src"), link)
+        if not os.path.exists(os.path.join(hd, "Cargo.lock")):
+            shutil.copy(os.path.join(REPO, "Cargo.lock"), os.path.join(hd, "Cargo.lock"))
+        env = dict(ENV)
+        env["CARGO_TARGET_DIR"] = os.path.join(BUILD, "cargo-fixed")
+        p = run(["cargo", "build", "--offline", "-q"], cwd=hd, check=False, timeout=3000, env=env)
+        if p.returncode != 0:
+            raise BuildError("harness (corrected dependency) does not build:\n" + p.stdout[-6000:])
+
+
+def write_if_changed(path, text):
+    if not os.path.exists(path) or open(path).read() != text:
+        open(path, "w").write(text)
+
+
 def coq_make(targets):
     """Full .vo build of the given targets (never -vos)."""
     with Lock("coq"):
